@@ -18,12 +18,16 @@ const (
 	VerifSiteDetectCycleCall       // NoFragmentCycles: calls of detectCycleRecursive
 	VerifSiteDetectCycleSpread     // NoFragmentCycles: iterations of the loop over spreadNodes
 	VerifSiteVariableUsagesCompute // VariableUsages: traversals actually made (cache misses)
+	// possible-type tables (C19): entries of every table Schema.PossibleTypes hands to a caller
+	VerifSitePossibleTypesEnumerated
 	verifSiteCount
 )
 
 var verifCounters [verifSiteCount]atomic.Uint64
 
 func verifCount(site int) { verifCounters[site].Add(1) }
+
+func verifCountN(site int, n int) { verifCounters[site].Add(uint64(n)) }
 
 // VerifCounters returns the current counter values, indexed by site.
 func VerifCounters() []uint64 {
